@@ -639,6 +639,39 @@ func DecideWithHookFn(b *Built, fn func(args.ReadOnly) (*args.Args, error)) Deci
 
 // DecideIdentityHook runs the hook variant with a hook that hands back a clone
 // of the token's own arguments.
+// OddHooks: argument hooks as callers get them wrong or use them for something else - a hook that answers
+// (nil, nil), no hook at all (a nil function), one that hands back an empty argument set, one that panics. Whatever
+// the library makes of them (an error, a panic, the token's own arguments), a chain that must be refused is not
+// reported as allowed through them.
+var OddHooks = []string{"nil-args", "nil-func", "empty-args", "panics"}
+
+func DecideOddHook(b *Built, kind string) Decision {
+	var d Decision
+	var err error
+	p, v, _ := h.Try(func() {
+		switch kind {
+		case "nil-args":
+			err = b.Inv.ExecutionAllowedWithArgsHook(b.Loader, func(ro args.ReadOnly) (*args.Args, error) { return nil, nil })
+		case "nil-func":
+			err = b.Inv.ExecutionAllowedWithArgsHook(b.Loader, nil)
+		case "empty-args":
+			err = b.Inv.ExecutionAllowedWithArgsHook(b.Loader, func(ro args.ReadOnly) (*args.Args, error) { return args.New(), nil })
+		default:
+			err = b.Inv.ExecutionAllowedWithArgsHook(b.Loader, func(ro args.ReadOnly) (*args.Args, error) { panic("verif: hook panics") })
+		}
+	})
+	if p {
+		d.Panicked, d.Panic = true, fmt.Sprint(v)
+		return d
+	}
+	if err != nil {
+		d.Err = err.Error()
+		return d
+	}
+	d.Allowed = true
+	return d
+}
+
 func DecideIdentityHook(b *Built) Decision {
 	var d Decision
 	var err error
